@@ -1,9 +1,13 @@
 #!/bin/bash
-# usage: tools/try_mutant.sh <patch.diff> <prop> [tier]   — apply to /repo, run the check, undo.
+# usage: tools/try_mutant.sh <patch.diff (absolute path)> <prop> [tier]
+#   applies the change to a scratch worktree of /repo (so that checks running elsewhere against /repo are not disturbed), runs the check
+#   against it (VERIF_REPO), removes the worktree.  Equivalent to: git -C /repo apply <file>; ./check ...; git -C /repo checkout -- .
 set -u
 P=$1; ID=$2; TIER=${3:-quick}
-cd /repo && git apply "$P" || { echo "patch does not apply"; exit 2; }
-cd /verif && ./check $ID --tier $TIER > /tmp/try_mutant.out 2>&1; RC=$?
-cd /repo && git checkout -- . 
+WT=/tmp/try_repo_$$
+git -C /repo worktree add --detach "$WT" > /dev/null 2>&1 || { echo "cannot create worktree"; exit 2; }
+( cd "$WT" && git apply "$P" ) || { echo "patch does not apply"; git -C /repo worktree remove --force "$WT"; exit 2; }
+cd /verif && VERIF_REPO="$WT" ./check $ID --tier $TIER > /tmp/try_mutant.out 2>&1; RC=$?
+git -C /repo worktree remove --force "$WT"
 python3 -c "import sys; sys.path.insert(0,'/verif/lib'); import common; common.refresh_all_gen()"
 echo "exit=$RC"; grep -c "^VIOLATION" /tmp/try_mutant.out; grep "^VIOLATION\|^KNOWN\|tier=" /tmp/try_mutant.out | head -8
